@@ -63,6 +63,12 @@ func NewConfig(prop string, tier string, r *core.Rand) Config {
 	case "C03":
 		c.PTamper = 0.35
 		c.Metamorphic = r.Chance(0.4)
+		if r.Chance(0.3) {
+			// the block producer also serves query-connection traffic (Info, queries) and CheckTx
+			c.Noisy, c.NoisyLeader = true, true
+			c.SideMean, c.QueryMean = 0.2, 0.2
+			c.Followers = 1
+		}
 		c.PInvalid = 0.05
 		c.KindW["proposal"], c.KindW["vote"], c.KindW["setdoc"], c.KindW["withdraw"], c.KindW["unstake"] = 1, 1.5, 1, 1.5, 2
 	case "C04":
@@ -281,6 +287,7 @@ type Generator struct {
 	outage                map[int]int // validator-set index -> remaining blocks of outage
 	freshCtr              int
 	enumLeft              int
+	lastStakeActor        int
 	pendingGenesisUnstake int
 	absentNow             map[Addr]bool
 	absentHist            map[Addr]int64
@@ -475,6 +482,7 @@ func (g *Generator) intent(h int64) Intent {
 	case "stake":
 		it = Intent{Kind: "stake", Actor: g.richActor(), Amt: fmt.Sprintf("pow:%d", g.r.Range(1, 60))}
 		it.To = fmt.Sprintf("a%d", it.Actor)
+		g.lastStakeActor = it.Actor
 	case "delegate":
 		ds := g.delegateeActors()
 		it = Intent{Kind: "stake", Actor: g.richActor(), Amt: fmt.Sprintf("pow:%d", g.r.Range(1, 40))}
@@ -512,6 +520,12 @@ func (g *Generator) intent(h int64) Intent {
 	switch k {
 	case "unstake":
 		ls := g.liveStakes()
+		if g.lastStakeActor >= 0 && g.r.Chance(0.12) {
+			// release the stake this sender created earlier in this block
+			a := g.lastStakeActor
+			g.lastStakeActor = -1
+			return Intent{Kind: "unstake", Actor: a, Stake: -2}
+		}
 		if len(ls) == 0 {
 			return Intent{Kind: "transfer", Actor: g.richActor(), To: g.target(), Amt: "n:1"}
 		}
@@ -663,11 +677,17 @@ func (g *Generator) intent(h int64) Intent {
 	}
 	// generic invalidations
 	if g.r.Chance(g.c.PInvalid) {
-		switch g.r.Intn(7) {
+		switch g.r.Intn(8) {
+		case 7:
+			// a receiver field that is an existing account's address followed by extra bytes
+			if it.Kind == "transfer" || it.Kind == "stake" || it.Kind == "call" {
+				a := g.w.Actors[g.pickActor()].Addr
+				it.ToRaw = hex.EncodeToString(append(a.Bytes(), g.r.Bytes(g.r.Range(1, 12))...))
+			}
 		case 0:
 			it.Nonce = []int{1, -1, 2, 5}[g.r.Intn(4)]
 		case 1:
-			it.Gas = []string{"min-1", "0", "n:1"}[g.r.Intn(3)]
+			it.Gas = []string{"min-1", "0", "n:1", "n:30000000", "n:25000001"}[g.r.Intn(5)]
 		case 2:
 			it.Price = []string{"gov+1", "gov-1", "0", "max"}[g.r.Intn(4)]
 		case 3:
@@ -689,7 +709,11 @@ func (g *Generator) intent(h int64) Intent {
 	}
 	if g.c.PTamper > 0 && g.r.Chance(g.c.PTamper) {
 		if g.r.Chance(0.15) {
-			it.WrongChain = true
+			if g.r.Chance(0.4) {
+				it.EmptyChain = true
+			} else {
+				it.WrongChain = true
+			}
 		} else {
 			it.Mut = g.mutation(it.Kind)
 		}
@@ -778,6 +802,7 @@ func (g *Generator) NextBlock(h int64) BlockStep {
 	w := g.w
 	c := g.c
 	g.pendingGenesisUnstake = 0
+	g.lastStakeActor = -1
 	g.absentNow = map[Addr]bool{}
 	if g.absentHist == nil {
 		g.absentHist = map[Addr]int64{}
@@ -899,6 +924,9 @@ func (g *Generator) NextBlock(h int64) BlockStep {
 				}
 				for k := g.r.Geometric(c.QueryMean); k > 0; k-- {
 					st.Sides = append(st.Sides, g.query(ri, pt, h))
+				}
+				if g.r.Chance(0.02) || (h <= 2 && g.r.Chance(0.1)) {
+					st.Sides = append(st.Sides, Side{Replica: ri, At: pt, Kind: "info"})
 				}
 			}
 		}
